@@ -68,6 +68,9 @@ def gen_cases(ctx, bom=True, nl=False, nrand=None, deep=None):
         ctx.run([pb, "random", "-n", str(nrand if nrand is not None else (3000 if ctx.quick else 60000)),
                  "-deep", str(deep if deep is not None else (20 if ctx.quick else 300))], stdout=f)
         ctx.run([pb, "harvest", "-repo", ctx.repo], stdout=f)
+        # refill-aligned variants (pad, b): every state's witness with a byte class / the BOM / end of input placed on, just
+        # before and just after the 4096-byte refill of the reader front-ends (all reader variants run on these)
+        ctx.run([pb, "align", "-states", sts, "-per", "6" if ctx.quick else "40"], stdout=f)
     return out
 
 
@@ -91,9 +94,10 @@ def probe_loci(ctx, items):
     if not items:
         return []
     uniq = {}
-    for api, b in items:
-        uniq.setdefault(json.dumps(b), []).append(api)
-    cases = [{"id": k, "b": json.loads(bs)} for k, bs in enumerate(uniq)]
+    items = [(api, b if isinstance(b, tuple) else (0, b)) for api, b in items]      # b or (pad, b)
+    for api, pb_ in items:
+        uniq.setdefault(json.dumps(list(pb_)), []).append(api)
+    cases = [{"id": k, "b": json.loads(bs)[1]} for k, bs in enumerate(uniq)]
     locp = os.path.join(ctx.scratch, "loc_%d.ndjson" % ctx._n)
     verif.write_ndjson(locp, cases)
     r = ctx.tlc("JsonLocus", LOC_CFG, files={"loc.ndjson": locp}, workers=1, timeout=900, count=False)
@@ -104,10 +108,10 @@ def probe_loci(ctx, items):
     probes = []
     order = []
     for k, bs in enumerate(uniq):
-        b = json.loads(bs)
+        pad, b = json.loads(bs)
         for api in sorted(set(uniq[bs])):
             pr = [b[:j + 1] + steps[k][j]["comp"] for j in range(len(b))]
-            probes.append({"id": len(order), "api": api, "probes": pr})
+            probes.append({"id": len(order), "api": api, "probes": pr, "pad": pad})
             order.append((api, bs, k))
     pp = os.path.join(ctx.scratch, "probes_%d.ndjson" % ctx._n)
     verif.write_ndjson(pp, probes)
@@ -123,7 +127,15 @@ def probe_loci(ctx, items):
         else:
             s = steps[k][o["k"] - 1]
             res[(api, bs)] = (s["pc"], s["cls"], s["top"])
-    return [res[(api, json.dumps(b))] for api, b in items]
+    return [res[(api, json.dumps(list(pb_)))] for api, pb_ in items]
+
+
+def padded_text(case):
+    """witness text of a (pad, b) case"""
+    t = to_text(case["b"])
+    if not case.get("pad"):
+        return t
+    return {"pad_spaces": case["pad"], "then": t}
 
 
 def to_text(b):
